@@ -4,6 +4,7 @@ import (
 	"fmt"
 	"go/ast"
 	"go/token"
+	"os"
 	"path/filepath"
 	"strings"
 )
@@ -17,6 +18,7 @@ func extra(repo, out string, root, helpers *pkgFiles) {
 	}
 	if root != nil {
 		genReflect(out, root, irefl)
+		genEntryFacts(out, root)
 	}
 }
 
@@ -229,4 +231,97 @@ func isCommaOkReturn(s ast.Stmt) bool {
 		return false
 	}
 	return exprString(ifs.Cond) == exprString(as.Lhs[1]) && isReturnOf(ifs.Body.List[0], exprString(as.Lhs[0]))
+}
+
+// genEntryFacts: how the three families of entry points treat a failing destination writer.
+func genEntryFacts(out string, root *pkgFiles) {
+	var sb strings.Builder
+	sb.WriteString("import Vuego.Model.Entry\nnamespace Vuego.Generated\nopen Vuego.Entry\n\n")
+	defer func() {
+		sb.WriteString("end Vuego.Generated\n")
+		writeFile(out, "EntryFacts.lean", sb.String())
+	}()
+	// 1. Vue.render: wraps w in errWriter and returns ew.err; errWriter.Write remembers the first error
+	vueReports := false
+	if fd := root.method("Vue", "render"); fd != nil {
+		wraps, returns := false, false
+		ast.Inspect(fd.Body, func(n ast.Node) bool {
+			switch x := n.(type) {
+			case *ast.AssignStmt:
+				if len(x.Rhs) == 1 && strings.Contains(exprString(x.Rhs[0]), "errWriter") {
+					wraps = true
+				}
+			case *ast.ReturnStmt:
+				if len(x.Results) == 1 && strings.HasSuffix(exprString(x.Results[0]), ".err") {
+					returns = true
+				}
+			}
+			return true
+		})
+		// a composite literal is not handled by exprString: look at the source text of the function instead
+		src := nodeText(root, fd)
+		if strings.Contains(src, "&errWriter{w: w}") {
+			wraps = true
+		}
+		remembers := false
+		if wfd := root.method("errWriter", "Write"); wfd != nil {
+			ws := nodeText(root, wfd)
+			remembers = strings.Contains(ws, "e.err = err") && strings.Contains(ws, "if e.err != nil")
+		}
+		vueReports = wraps && returns && remembers
+		if wraps != returns {
+			fail("Vue.render", fmt.Errorf("error-remembering writer is created but its error is not returned (or vice versa)"))
+		}
+	} else {
+		fail("Vue.render", fmt.Errorf("method not found"))
+	}
+	// 2. template.layout: `_, err := io.Copy(w, buf); return err`
+	layoutReturns := false
+	if fd := root.method("template", "layout"); fd != nil {
+		src := nodeText(root, fd)
+		idx := strings.Index(src, "io.Copy(w, buf)")
+		if idx < 0 {
+			fail("template.layout", fmt.Errorf("io.Copy(w, buf) not found"))
+		} else {
+			tail := src[idx:]
+			nl := strings.Index(tail, "\n")
+			next := strings.TrimSpace(strings.SplitN(tail[nl+1:], "\n", 2)[0])
+			head := strings.TrimSpace(src[strings.LastIndex(src[:idx], "\n")+1 : idx])
+			layoutReturns = strings.HasPrefix(head, "_, err :=") && next == "return err"
+		}
+	} else {
+		fail("template.layout", fmt.Errorf("method not found"))
+	}
+	// 3. RenderReader: `_, err = buf.WriteTo(w); return err`
+	readerReturns := false
+	if fd := root.method("template", "RenderReader"); fd != nil {
+		src := nodeText(root, fd)
+		idx := strings.Index(src, "buf.WriteTo(w)")
+		if idx < 0 {
+			fail("template.RenderReader", fmt.Errorf("buf.WriteTo(w) not found"))
+		} else {
+			tail := src[idx:]
+			nl := strings.Index(tail, "\n")
+			next := strings.TrimSpace(strings.SplitN(tail[nl+1:], "\n", 2)[0])
+			head := strings.TrimSpace(src[strings.LastIndex(src[:idx], "\n")+1 : idx])
+			readerReturns = strings.HasPrefix(head, "_, err =") && next == "return err"
+		}
+	} else {
+		fail("template.RenderReader", fmt.Errorf("method not found"))
+	}
+	rep.Facts["entry.vueRenderReportsWriteError"] = b2l(vueReports)
+	rep.Facts["entry.layoutReturnsCopyError"] = b2l(layoutReturns)
+	rep.Facts["entry.readerReturnsWriteToError"] = b2l(readerReturns)
+	sb.WriteString("/-- read from Vue.render/errWriter (vue.go), template.layout (template_layout.go), template.RenderReader (template_render.go) -/\n")
+	sb.WriteString(fmt.Sprintf("def entryCfg : EntryCfg := { vueRenderReportsWriteError := %s, layoutReturnsCopyError := %s, readerReturnsWriteToError := %s }\n\n", b2l(vueReports), b2l(layoutReturns), b2l(readerReturns)))
+}
+
+func nodeText(p *pkgFiles, n ast.Node) string {
+	start := p.fset.Position(n.Pos())
+	end := p.fset.Position(n.End())
+	b, err := os.ReadFile(start.Filename)
+	if err != nil {
+		return ""
+	}
+	return string(b[start.Offset:end.Offset])
 }
